@@ -285,6 +285,7 @@ func (e *Env) assumeLemmaQuantified(pkg *types.Package, name string) {
 	e.quantDepth--
 	e.symHeaps = e.symHeaps[:len(e.symHeaps)-1]
 	sort.Strings(rd.heapNames)
+	paramDecls := append([]string(nil), decls...)
 	for _, hn := range rd.heapNames {
 		decls = append(decls, "("+q("h$"+hn)+" "+rd.heapSort[hn]+")")
 	}
@@ -293,6 +294,17 @@ func (e *Env) assumeLemmaQuantified(pkg *types.Package, name string) {
 		body = "(! " + body + " " + strings.Join(pats, " ") + ")"
 	}
 	e.assume("(forall (" + strings.Join(decls, " ") + ") " + body + ")")
+	// the same lemma specialised to the heap at function entry (no quantification over heap
+	// arrays: patterns with only scalar variables are matched far more reliably); an instance
+	// of the general statement
+	if len(rd.heapNames) > 0 && len(paramDecls) > 0 {
+		entry := &State{pc: tTrue, heap: map[string]string{}}
+		var repl []string
+		for _, hn := range rd.heapNames {
+			repl = append(repl, q("h$"+hn), e.heapGet(entry, hn, rd.heapSort[hn]))
+		}
+		e.assume("(forall (" + strings.Join(paramDecls, " ") + ") " + strings.NewReplacer(repl...).Replace(body) + ")")
+	}
 	e.usedLemmas[lem.Pkg+"."+lem.Name] = true
 }
 
